@@ -14,6 +14,7 @@ import (
 	"strings"
 
 	"golang.org/x/crypto/scrypt"
+	"massnet.org/mass-wallet/masswallet/keystore"
 	"massnet.org/mass-wallet/masswallet/keystore/snacl"
 )
 
@@ -311,6 +312,18 @@ type kscKs struct {
 	purpose, coin, account, ex, in                   uint32
 }
 
+// doc: the canonical text of f, made by the real json.Marshal (the generator may call the code under test to build inputs)
+func (f kscKs) doc() []byte {
+	k := &keystore.Keystore{}
+	k.Remarks = string(f.remarks)
+	k.Crypto.Version = uint8(f.version)
+	k.Crypto.Cipher, k.Crypto.EntropyEnc, k.Crypto.KDF = string(f.cipher), string(f.ent), string(f.kdf)
+	k.Crypto.PubParams, k.Crypto.PrivParams = string(f.pubp), string(f.privp)
+	k.Crypto.CryptoKeyPubEnc, k.Crypto.CryptoKeyPrivEnc, k.Crypto.CryptoKeyEntropyEnc = string(f.cpub), string(f.cpriv), string(f.cent)
+	k.HDpath.Purpose, k.HDpath.Coin, k.HDpath.Account, k.HDpath.ExternalChildNum, k.HDpath.InternalChildNum = f.purpose, f.coin, f.account, f.ex, f.in
+	return k.Bytes()
+}
+
 func (f kscKs) fields() string {
 	return fmt.Sprintf("%s %d %s %s %s %s %s %s %s %s %d %d %d %d %d", hexTok(f.remarks), f.version, hexTok(f.cipher), hexTok(f.ent),
 		hexTok(f.kdf), hexTok(f.pubp), hexTok(f.privp), hexTok(f.cpub), hexTok(f.cpriv), hexTok(f.cent), f.purpose, f.coin, f.account, f.ex, f.in)
@@ -339,12 +352,14 @@ func (k *kscGen) renderPart() {
 		f := k.baseKs()
 		f.remarks = []byte([]string{"", "my wallet", "Wallet #2 (cold)", "a b  c", "0123456789"}[k.r.Intn(5)])
 		k.op("ksc-render-plain", "render %s", f.fields())
+		k.op("ksc-parse-canonical", "parse %s", hexTok(f.doc()))
 	}
 	g.Reset()
 	for c := 0; c < 128; c++ { // every ASCII code as a remark of its own and inside text
 		f := k.baseKs()
 		f.remarks = []byte{byte(c)}
 		k.op("ksc-render-escape", "render %s", f.fields())
+		k.op("ksc-parse-canonical", "parse %s", hexTok(f.doc()))
 		if c%8 == 0 {
 			g.Reset()
 		}
@@ -353,25 +368,30 @@ func (k *kscGen) renderPart() {
 		f := k.baseKs()
 		f.remarks = []byte(s)
 		k.op("ksc-render-escape", "render %s", f.fields())
+		k.op("ksc-parse-canonical", "parse %s", hexTok(f.doc()))
 	}
 	g.Reset()
 	for _, s := range kscUtf8Valid {
 		f := k.baseKs()
 		f.remarks = []byte("r:" + s + ".")
 		k.op("ksc-render-utf8", "render %s", f.fields())
+		k.op("ksc-parse-canonical", "parse %s", hexTok(f.doc()))
 	}
 	for _, s := range kscUtf8Special {
 		f := k.baseKs()
 		f.remarks = []byte(s)
 		k.op("ksc-render-line-separators", "render %s", f.fields())
+		k.op("ksc-parse-canonical", "parse %s", hexTok(f.doc()))
 	}
 	g.Reset()
 	for _, s := range kscUtf8Invalid {
 		f := k.baseKs()
 		f.remarks = []byte(s)
 		k.op("ksc-render-invalid-utf8", "render %s", f.fields())
+		k.op("ksc-parse-canonical", "parse %s", hexTok(f.doc()))
 		f.remarks = []byte("a" + s + "z")
 		k.op("ksc-render-invalid-utf8", "render %s", f.fields())
+		k.op("ksc-parse-canonical", "parse %s", hexTok(f.doc()))
 	}
 	for i := 0; i < g.Scale(60, 1000); i++ {
 		if i%8 == 0 {
@@ -380,6 +400,7 @@ func (k *kscGen) renderPart() {
 		f := k.baseKs()
 		f.remarks = k.rb(k.r.Intn(12))
 		k.op("ksc-render-random-bytes", "render %s", f.fields())
+		k.op("ksc-parse-canonical", "parse %s", hexTok(f.doc()))
 	}
 	g.Reset()
 	for i := 0; i < g.Scale(40, 300); i++ {
@@ -396,12 +417,14 @@ func (k *kscGen) renderPart() {
 			f.ent, f.privp, f.cent = nil, nil, nil
 		}
 		k.op("ksc-render-omitempty", "render %s", f.fields())
+		k.op("ksc-parse-canonical", "parse %s", hexTok(f.doc()))
 	}
 	g.Reset()
 	for _, n := range kscU32Edges {
 		f := k.baseKs()
 		f.purpose, f.coin, f.account, f.ex, f.in = n, kscU32Edges[k.r.Intn(len(kscU32Edges))], n, n, kscU32Edges[k.r.Intn(len(kscU32Edges))]
 		k.op("ksc-render-counter-boundary", "render %s", f.fields())
+		k.op("ksc-parse-canonical", "parse %s", hexTok(f.doc()))
 	}
 }
 
